@@ -619,6 +619,133 @@ def parity_traces(rng, n):
     return out
 
 
+# --------------------------------------------------------------------------- _thread over the fake broker
+_RT_CLASSES = {}
+
+
+def rt_class(is_async):
+    """The REAL RedisManager / AsyncRedisManager with the recording Spy layer underneath PubSubManager."""
+    if is_async not in _RT_CLASSES:
+        if is_async:
+            class AsyncRedisUnderTest(ARM.AsyncRedisManager, D.AsyncSpy):
+                pass
+            _RT_CLASSES[True] = AsyncRedisUnderTest
+        else:
+            class RedisUnderTest(RM.RedisManager, D.Spy):
+                pass
+            _RT_CLASSES[False] = RedisUnderTest
+    return _RT_CLASSES[is_async]
+
+
+def gen_rt_items(rng):
+    """Channel sequence for the Redis listener: bad messages (non-dict values, undecodable bytes, dicts without
+    method, handler faults, own echoes) each followed by a valid sentinel, plus connection drops."""
+    items, k = [], 0
+    n = rng.randrange(2, 7)
+
+    def sentinel():
+        nonlocal k
+        k += 1
+        m = {'method': 'emit', 'event': 'sent-%d' % k, 'data': k, 'namespace': KEEP_NS, 'room': None,
+             'skip_sid': None, 'callback': None, 'host_id': 'hostB'}
+        raw = pickle.dumps(m) if rng.random() < 0.6 else ejson.dumps(m).encode()
+        return with_oracle({'kind': 'msg', 'm': raw, 'fs': [], 'sentinel': 'sent-%d' % k, 'label': 'sentinel'})
+    for _ in range(n):
+        r = rng.random()
+        if r < 0.45:
+            v = rng.choice([5, 'xmethody', ['method'], ('method',), 1.5, True, b'method', 'method', [1, 'method'], 7, -1])
+            raw = pickle.dumps(v) if rng.random() < 0.5 or isinstance(v, (tuple, bytes)) else ejson.dumps(v).encode()
+            items.append(with_oracle({'kind': 'msg', 'm': raw, 'fs': [], 'label': 'nondict-raises'}))
+        elif r < 0.6:
+            v = rng.choice([0, None, 'abc', [], {}, {'a': 1}, ['a'], False])
+            raw = pickle.dumps(v) if rng.random() < 0.5 else ejson.dumps(v).encode()
+            items.append(with_oracle({'kind': 'msg', 'm': raw, 'fs': [], 'label': 'nondict-quiet'}))
+        elif r < 0.7:
+            items.append(with_oracle({'kind': 'msg', 'm': rng.choice([b'', b'\x80\x04', b'garbage', b'{', b'\xff\xfe']),
+                                      'fs': [], 'label': 'undecodable'}))
+        elif r < 0.85:
+            m = {'method': rng.choice(['emit', 'close_room', 'disconnect']), 'event': 'ev', 'data': 1, 'namespace': '/',
+                 'room': 'r1', 'sid': 'c9', 'host_id': rng.choice(['hostB', OWN])}
+            items.append(with_oracle({'kind': 'msg', 'm': pickle.dumps(m), 'fs': [rng.choice(D.FAULT_NAMES)],
+                                      'label': 'handler-fault'}))
+        else:
+            items.append({'kind': 'err', 'label': 'connection-drop'})
+        items.append(sentinel())
+    return items
+
+
+def run_redis_thread(is_async, items, loop):
+    """Run the real _thread() of the Redis manager over the fake broker; returns (broker events, sentinel flags)."""
+    fake_redis.CTL.end()
+    fake_redis.set_broker(None)
+    rec = D.Rec()
+    srv = D.AsyncStubServer(rec) if is_async else D.StubServer(rec)
+    mgr = rt_class(is_async)('redis://', channel='socketio', logger=logging.getLogger('c15-null'))
+    mgr._rec = rec
+    mgr.host_id = OWN
+    mgr.set_server(srv)
+    srv.manager = mgr
+    mgr.initialize()
+    queue = []
+    for it in items:
+        if it['kind'] == 'err':
+            queue.append(('err',))
+        else:
+            queue.append(('msg', it['m'], (lambda fs=it.get('fs', ()): rec.new_segment(fs))))
+    broker = fake_redis.Broker(queue)
+    try:
+        if is_async:
+            async def go():
+                await mgr.connect('eK', KEEP_NS)
+                fake_redis.set_broker(broker)
+                rec.active = True
+                try:
+                    await mgr._thread()
+                except fake_redis.ScriptEnd:
+                    pass
+                except Exception as e:
+                    broker.events.append(('lost', -1))
+                for _ in range(3):
+                    await asyncio.sleep(0)
+            loop.run_until_complete(go())
+        else:
+            mgr.connect('eK', KEEP_NS)
+            fake_redis.set_broker(broker)
+            rec.active = True
+            try:
+                mgr._thread()
+            except fake_redis.ScriptEnd:
+                pass
+            except Exception as e:
+                broker.events.append(('lost', -1))
+    finally:
+        rec.active = False
+        fake_redis.set_broker(None)
+        D.FakePacket.registry.clear()
+    sent = set()
+    for seg in rec.segs:
+        for e in seg:
+            if e[0] == 'send' and e[1] == 'eK' and isinstance(e[2][1], list) and e[2][1]:
+                sent.add(e[2][1][0])
+    flags = [it['sentinel'] in sent for it in items if it.get('sentinel')]
+    return broker.events, flags
+
+
+def bevent_term(e):
+    if e[0] in ('deliver', 'lost'):
+        return '(%s %d%%nat)' % ('BDeliver' if e[0] == 'deliver' else 'BLost', max(e[1], 0))
+    return {'sub': 'BSub', 'unsub': 'BUnsub', 'connect': 'BConnect'}[e[0]]
+
+
+def rt_case(is_async, items, loop):
+    events, flags = run_redis_thread(is_async, items, loop)
+    term = '(RT %s %s %s %s %s)' % (
+        cbool(is_async), cstr(OWN),
+        clist(['RE' if it['kind'] == 'err' else '(RM %s)' % D.item_term(it) for it in items]),
+        clist([bevent_term(e) for e in events]), clist([cbool(f) for f in flags]))
+    return term, events, flags
+
+
 # --------------------------------------------------------------------------- run
 def lst_batch(chk, gen, is_async, n, loop, cases, meta, probes):
     """n generated listener scenarios on one manager class, appended to cases / meta."""
@@ -670,7 +797,12 @@ def evaluate(chk, cases, meta, name='c15'):
 
 def report_property(chk, code, kind, is_async, replay):
     cls = 'async' if is_async else 'sync'
-    if code & 8:
+    if kind == 'redis-thread':
+        chk.violation('redis-listener-unsubscribed-after-restart',
+                      'over the Redis backend a message was delivered to / lost by a listener that is not subscribed, or a '
+                      'sentinel placed after a bad message had no effect (%s manager): after _listen() was restarted the '
+                      'channel is not subscribed exactly once' % cls, replay)
+    elif code & 8:
         chk.violation('c15-callback-id0-pops-counter',
                       "a channel message {'method': 'callback', 'host_id': <own>, 'sid': <sid with callbacks>, "
                       "'id': 0} pops the id counter of callbacks[sid]; every later emit with a callback to that "
@@ -690,6 +822,7 @@ def run(chk):
     n_lst = 9000 if chk.thorough else 650          # per manager class
     n_api = 400 if chk.thorough else 60
     n_redis = 3000 if chk.thorough else 250
+    n_rt = 2000 if chk.thorough else 150
     chk.rule = ('channel sequences (3..13 items quick, 3..29 thorough, plus one sentinel after every bad item) mixing '
                 'valid messages from other hosts with the thirteen ineffective classes, each as dict / pickle / JSON '
                 'str / JSON bytes, local ACK deliveries, raising _listen iterators and per-item fault scripts; a scenario '
@@ -704,6 +837,9 @@ def run(chk):
         '(its disconnect() reproduces Server.disconnect on the manager: is_connected, basic_disconnect), FakePacket',
         'harness/drivers/fake_redis.py: scripted fake of redis / redis.asyncio / redis.exceptions; time.sleep and '
         'asyncio.sleep replaced inside the two manager modules',
+        'broker mode of the fake: a pubsub object receives a channel message only while the channel is in its '
+        'subscription set (subscribe twice + unsubscribe once = unsubscribed); abandoned async generators are finalised '
+        'by the event loop (gc.collect + loop turns after every (re)start of listen())',
         'harness/props/c15.py generators and printers, vt/coqio.py']
     chk.assumptions = [
         'a restarted _listen() continues with the messages that follow (assumption about the broker)',
@@ -756,6 +892,17 @@ def run(chk):
                 kinds = tuple(o[0] for o in script)
                 chk.count(1, (is_async, i % 2, kinds) if 'redis' in kinds else None)
                 chk.dist('redis script')
+        # the real RedisManager._thread() / AsyncRedisManager._thread() over a broker that delivers only to subscribers
+        for is_async in (False, True):
+            for i in range(n_rt):
+                items = gen_rt_items(rng)
+                term, events, flags = rt_case(is_async, items, loop)
+                cases.append(term)
+                meta.append(('redis-thread', is_async, {'items': [(it['label'], it.get('m')) for it in items],
+                                                        'broker': events, 'sentinels': flags}))
+                labels = tuple(it['label'] for it in items if it['label'] != 'sentinel')
+                chk.count(1, (is_async, 'rt', labels) if ('nondict-raises' in labels or 'connection-drop' in labels) else None)
+                chk.dist('redis thread scenario')
     finally:
         loop.close()
 
